@@ -229,6 +229,24 @@ func diffObservation(got, want observation, own string) []fieldDiff {
 	return out
 }
 
+// foreignFields lists the fields of an answer that carry another request's token: data
+// that does not belong to the request being served, whatever it is compared with.
+func foreignFields(o observation, own string) []fieldDiff {
+	m := fieldMap(o)
+	var names []string
+	for k := range m {
+		names = append(names, k)
+	}
+	sort.Strings(names)
+	var out []fieldDiff
+	for _, k := range names {
+		if f := foreignTokens(m[k], own); len(f) > 0 {
+			out = append(out, fieldDiff{Field: k, Kind: "foreign", Got: m[k], Foreign: f})
+		}
+	}
+	return out
+}
+
 func clip(s string, n int) string {
 	if len(s) > n {
 		return s[:n] + "…"
